@@ -255,6 +255,70 @@ fn cmd_refcheck() -> i32 {
     }
 }
 
+/// Code-length sets whose decode tables the Huffman-arm harnesses use.
+pub fn table_sets() -> Vec<(&'static str, Vec<u8>, Vec<u8>)> {
+    let mut v = Vec::new();
+    // DYNB: a complete dynamic code with every code length 1..=15, three length symbols incl. 258,
+    // near and far distance symbols (with 0, 1, 4 and 13 extra bits)
+    let mut lit = vec![0u8; 286];
+    for (sym, len) in [(97usize, 1u8), (98, 2), (256, 3), (257, 4), (264, 5), (265, 6), (285, 7), (99, 8), (100, 9),
+                       (101, 10), (102, 11), (103, 12), (104, 13), (105, 14), (106, 15), (107, 15)] {
+        lit[sym] = len;
+    }
+    let mut dist = vec![0u8; 30];
+    for (sym, len) in [(0usize, 1u8), (1, 2), (4, 3), (10, 4), (29, 4)] {
+        dist[sym] = len;
+    }
+    v.push(("DYNB", lit, dist));
+    v
+}
+
+/// Builds Huffman decode tables with the REAL init_tree of the current /repo tree (natively) and
+/// prints them as Rust constants; the Kani harnesses install them with verif_load_table, because
+/// symbolic execution of init_tree itself is out of reach (DESIGN.md 3.2).
+fn cmd_dump_tables() -> i32 {
+    use miniz_oxide::inflate::core::verif as v;
+    use miniz_oxide::inflate::core::DecompressorOxide;
+    println!("// @generated by `mzreplay dump-tables` from the real init_tree of /repo's working tree - do not edit.");
+    let emit = |name: &str, d: &DecompressorOxide, lit: &[u8], dist: &[u8]| {
+        for (t, tn) in [(0usize, "L"), (1, "D")] {
+            let (lu, tr) = d.verif_table_snapshot(t);
+            println!("pub const {}_{}_LOOKUP: [i16; 1024] = {:?};", name, tn, lu);
+            println!("pub const {}_{}_TREE: [i16; 576] = {:?};", name, tn, tr);
+        }
+        println!("pub const {}_LIT_LENS: [u8; {}] = {:?};", name, lit.len(), lit);
+        println!("pub const {}_DIST_LENS: [u8; {}] = {:?};", name, dist.len(), dist);
+    };
+    // fixed block tables: start_static_table + init_tree
+    let mut d = DecompressorOxide::new();
+    let mut regs = d.verif_regs();
+    regs.block_type = 1;
+    d.verif_set_regs(&regs);
+    v::start_static_table_hook(&mut d);
+    let r = v::init_tree_hook(&mut d);
+    if r != 1 {
+        eprintln!("init_tree refused the fixed code lengths: {}", r);
+        return 1;
+    }
+    let lit: Vec<u8> = (0..288).map(|i| d.verif_code_size_literal(i)).collect();
+    let dist: Vec<u8> = (0..32).map(|i| d.verif_code_size_dist(i)).collect();
+    emit("FIXED", &d, &lit, &dist);
+    for (name, lit, dist) in table_sets() {
+        let mut d = DecompressorOxide::new();
+        let mut regs = d.verif_regs();
+        regs.block_type = 1;
+        d.verif_set_regs(&regs);
+        d.verif_set_code_sizes(&lit, &dist);
+        let r = v::init_tree_hook(&mut d);
+        if r != 1 {
+            eprintln!("init_tree refused the code lengths of {}: {}", name, r);
+            return 1;
+        }
+        emit(name, &d, &lit, &dist);
+    }
+    0
+}
+
 fn main() {
     let args: Vec<String> = std::env::args().skip(1).collect();
     if args.is_empty() {
@@ -264,6 +328,7 @@ fn main() {
     let rc = match args[0].as_str() {
         "route" => cmd_route(&args[1..]),
         "refcheck" => cmd_refcheck(),
+        "dump-tables" => cmd_dump_tables(),
         "capi-init" => cmd_capi_init(&args[1..]),
         "capi-init-child" => cmd_capi_init_child(&args[1..]),
         _ => {
